@@ -132,12 +132,6 @@ Theorem dash_escape_eq_rfc t : dash_escape t = rfc_dash_escape t.
 Proof. unfold dash_escape, rfc_dash_escape. rewrite rfc_join_eq, rfc_lines_eq. apply esc_lines. Qed.
 
 (* ---------- escaped lines are safe ---------- *)
-Definition safe_line (l : text) : bool :=
-  match l with
-  | c :: r => if c =? 45 then match r with d :: _ => d =? 32 | [] => false end else true
-  | [] => true
-  end.
-
 Lemma rfc_escape_line_safe l : safe_line (rfc_escape_line l) = true.
 Proof.
   destruct l as [|c r]; [reflexivity|]. unfold rfc_escape_line. destruct (c =? 45) eqn:E; [reflexivity|].
